@@ -76,6 +76,7 @@ LEDGER = {
                 extra_runs=[("gas", ["-gassweep", "-alloc"], 0.5)],
                 need=dict(shapebad=100, steps=1000, gas_max=20)),
     "C13": dict(profile="mixed", flags=["-triple"], preds=["P13_Replicas", "P13_InputIntact"],
+                extra_runs=[("gas", ["-triple"], 0.75)],      # histories with schedule changes and epoch notifications before the compared call
                 mc=([M("ESDTTransfer,issue,ESDTNFTTransfer,create")], [M("ESDTTransfer,issue,ESDTNFTTransfer,MultiESDTNFTTransfer,create,mintburn")]),
                 need=dict(replicas=500, tok_ok=10), scale=0.5),
     "C15": dict(profile="mixed", preds=["WellFormed", "SysClean", "NoNegative"],
